@@ -13,6 +13,7 @@ require (
 	github.com/dgryski/go-maglev v0.0.0-20200611225407-8961b9b1b8e6 // indirect
 	github.com/go-faster/xor v0.3.0 // indirect
 	github.com/google/btree v1.1.3 // indirect
+	github.com/google/go-cmp v0.7.0 // indirect
 	github.com/gotd/ige v0.2.2 // indirect
 	github.com/josharian/intern v1.0.0 // indirect
 	github.com/mailru/easyjson v0.7.8-0.20240109111231-141f9c7d7ffe // indirect
